@@ -252,7 +252,7 @@ def outcome_match(impl, model):
 
 
 def nontrivial(case, impl):
-    if impl.startswith('ok:') or impl.startswith('cfg:') or impl.startswith('v:true') or impl == 'panic':
+    if impl.startswith('ok:') or impl.startswith('cfg:') or impl.startswith('url:') or impl.startswith('up:') or impl.startswith('v:true') or impl == 'panic':
         return True
     if impl.startswith('v:false:'):
         try:
@@ -359,6 +359,7 @@ PROPS = {
     'C13': {'streams': [('c13', 900, 30000)]},
     'C14': {'streams': [('c14', 1500, 50000)]},
     'C15': {'streams': [('c15', 1500, 60000)]},
+    'C16': {'streams': [('c16', 3000, 100000)]},
     'C17': {'streams': [('c17', 2500, 100000)]},
 }
 
